@@ -10,10 +10,14 @@ VERIF = os.path.dirname(HERE)
 
 table = json.load(open(os.path.join(HERE, 'manifest_table.json')))
 served = set()
+proved = set()   # properties with at least one quick-tier harness labelled proved-* (the evidence level follows the same rule)
 for uj in glob.glob(os.path.join(VERIF, 'units', '*', 'unit.json')):
     u = json.load(open(uj))
     for h in u['harnesses']:
-        served |= set(h.get('props', u.get('properties', [])))
+        ps = set(h.get('props', u.get('properties', [])))
+        served |= ps
+        if h.get('label', 'proved-modular') in ('proved-modular', 'proved-complete-unwinding') and h.get('tier', 'quick') != 'thorough':
+            proved |= ps
 
 props = [json.loads(l)['id'] for l in open(os.path.join(VERIF, 'properties.jsonl'))]
 checks, na = [], []
@@ -27,7 +31,7 @@ for pid in props:
             'evidence_file': 'evidence/%s.json' % pid,
             'replay_cmd_template': './check %s --replay {path}' % pid,
             'engine': 'cbmc-contracts',
-            'level_claimed': {'category': c.get('category', 'proof'), 'text': c['text'], 'design_ref': 'DESIGN.md section 5, ' + pid},
+            'level_claimed': {'category': ('proof' if pid in proved else 'other'), 'text': c['text'], 'design_ref': 'DESIGN.md section 5, ' + pid},
             'level_note': c['note'],
             'technique': c.get('technique', 'contract-based deductive verification: CBMC code contracts (goto-instrument --dfcc) enforced on functions sliced from /repo'),
         })
